@@ -283,6 +283,11 @@ CLAUSES = [
     ),
 ]
 
+from ..names_check import names_clause  # noqa: E402
+
+if names_clause("C07") is not None:
+    CLAUSES.append(names_clause("C07"))
+
 PROPERTY = Property(
     id="C07",
     level="exploration",
